@@ -655,6 +655,9 @@ def run_pass(variant, ops_path, trace_path, viol_path, oracle_filter=None):
     env = dict(os.environ)
     env.pop("C_HARNESS_ASAN", None)
     env.pop("C_HARNESS_PLAIN", None)
+    # PyMem_* blocks (the temporary arrays of the split paths) get guard bytes that are checked
+    # when the block is freed; under ASan the raw allocator is used so that ASan sees every block
+    env["PYTHONMALLOC"] = "malloc" if variant == "asan" else "debug"
     if variant == "asan":
         lib = subprocess.run(["gcc", "-print-file-name=libasan.so"], stdout=subprocess.PIPE).stdout.decode().strip()
         env["LD_PRELOAD"] = lib
@@ -704,6 +707,9 @@ def run_pass(variant, ops_path, trace_path, viol_path, oracle_filter=None):
                 summ = [l for l in err.splitlines() if "ERROR: AddressSanitizer" in l or l.startswith("SUMMARY:")]
                 what += " ASan: " + " | ".join(s.strip() for s in summ[:2])[:300]
         extra.append("VIOL %s %s %s %s [%s build, embedding %s]" % (prop, hid, step, what, variant, hs[idx][0].split()[2]))
+        if prop == "C13":
+            # a crash is also not "the result a dict gives" for the call that was running
+            extra.append("VIOL C12 %s %s the call did not return: %s [%s build, embedding %s]" % (hid, step, what, variant, hs[idx][0].split()[2]))
         if trace_path != "-":
             with open(trace_path, "a") as tf:
                 tf.write(hs[idx][0] + "\nX %s %s %s\n" % (hid, step, what))
